@@ -19,10 +19,11 @@ fn main() {
     let args: Vec<String> = std::env::args().collect();
     let seed: u64 = args[1].parse().unwrap();
     let n: usize = args[2].parse().unwrap();
-    std::panic::set_hook(Box::new(|_| {}));
+    if std::env::var("ORACLE_DEBUG").is_err() { std::panic::set_hook(Box::new(|_| {})); }
     let mut rng = Rng::new(seed);
     let mut out: Vec<Violation> = Vec::new();
     let (mut systems, mut chains, mut links, mut exact_starts, mut near_starts, mut boundary_starts) = (0usize, 0usize, 0usize, 0usize, 0usize, 0usize);
+    let mut added_kinds = 0usize;
     for i in 0..n {
         let mut sys = match i % 3 {
             0 => gen_planted(&mut rng, 8, 1e-2, &SHAPES),
@@ -174,10 +175,39 @@ fn main() {
                 let k = rng.range(1, 3);
                 for _ in 0..k {
                     let nvars = cur_vals.len();
-                    let c = match rng.below(3) {
+                    let pt_of = |k: usize| DatumPoint::new_xy(2 * k as u32, 2 * k as u32 + 1);
+                    let xy = |k: usize| (cur_vals[2 * k], cur_vals[2 * k + 1]);
+                    let c = match rng.below(6) {
                         0 => {
                             let id = rng.below(nvars) as u32;
                             Constraint::Fixed(id, cur_vals[id as usize])
+                        }
+                        3 if nvars >= 6 => {
+                            // signed distance of a point from a line through two others, measured here
+                            let (a, b, c3) = (rng.below(nvars / 2), rng.below(nvars / 2), rng.below(nvars / 2));
+                            let ((ax, ay), (bx, by), (cx, cy)) = (xy(a), xy(b), xy(c3));
+                            let (dx, dy) = (cx - bx, cy - by);
+                            let len = dx.hypot(dy);
+                            if len < 1e-2 { Constraint::Fixed(0, cur_vals[0]) } else {
+                                // positive on the left of b -> c (the documented sign convention)
+                                let d = (dx * (ay - by) - dy * (ax - bx)) / len;
+                                Constraint::PointLineDistance(pt_of(a), DatumLineSegment::new(pt_of(b), pt_of(c3)), d)
+                            }
+                        }
+                        4 if nvars >= 8 => {
+                            // the directed angle between two segments, measured here
+                            let ks: Vec<usize> = (0..4).map(|_| rng.below(nvars / 2)).collect();
+                            let (p0, p1, p2, p3) = (xy(ks[0]), xy(ks[1]), xy(ks[2]), xy(ks[3]));
+                            let (ux, uy, vx, vy) = (p1.0 - p0.0, p1.1 - p0.1, p3.0 - p2.0, p3.1 - p2.1);
+                            if ux.hypot(uy) < 1e-2 || vx.hypot(vy) < 1e-2 { Constraint::Fixed(0, cur_vals[0]) } else {
+                                let th = (ux * vy - uy * vx).atan2(ux * vx + uy * vy);
+                                let ang = if rng.chance(1, 2) { kcl_ezpz::datatypes::Angle::from_radians(th) } else { kcl_ezpz::datatypes::Angle::from_degrees(th.to_degrees()) };
+                                Constraint::LinesAtAngle(DatumLineSegment::new(pt_of(ks[0]), pt_of(ks[1])), DatumLineSegment::new(pt_of(ks[2]), pt_of(ks[3])), kcl_ezpz::datatypes::AngleKind::Other(ang))
+                            }
+                        }
+                        5 if nvars >= 4 => {
+                            let (a, b) = (rng.below(nvars / 2), rng.below(nvars / 2));
+                            Constraint::HorizontalDistance(pt_of(a), pt_of(b), xy(a).0 - xy(b).0)
                         }
                         1 if nvars >= 4 => {
                             let a = 2 * rng.below(nvars / 2) as u32;
@@ -201,7 +231,11 @@ fn main() {
                     // keep it only if the real error measure is within the tolerance at the result
                     let (res, _) = vh::residual(&c, &cur_vals);
                     if (0..vh::residual_dim(&c)).all(|k| res[k].abs() <= sys.convergence_tolerance) {
-                        cur_reqs.push(ConstraintRequest::new(c, max_prio));
+                        // anywhere in the list, at the last level or (now and then) at a new, lower one
+                        let prio = if rng.chance(1, 4) { max_prio.saturating_add(1) } else { max_prio };
+                        let at = rng.below(cur_reqs.len() + 1);
+                        cur_reqs.insert(at, ConstraintRequest::new(c, prio));
+                        added_kinds += 1;
                     }
                 }
             }
@@ -248,7 +282,7 @@ fn main() {
         }
     }
     println!(
-        "STATS {{\"systems\": {systems}, \"exact_starts\": {exact_starts}, \"near_tolerance_starts\": {near_starts}, \"tolerance_boundary_starts\": {boundary_starts}, \"chains\": {chains}, \"chain_links\": {links}, \"violations\": {}}}",
+        "STATS {{\"systems\": {systems}, \"exact_starts\": {exact_starts}, \"near_tolerance_starts\": {near_starts}, \"tolerance_boundary_starts\": {boundary_starts}, \"chains\": {chains}, \"chain_links\": {links}, \"already_satisfied_requests_added\": {added_kinds}, \"violations\": {}}}",
         out.len()
     );
 }
